@@ -23,7 +23,7 @@ open Enc.Spec.Protobuf (FieldOpt WireVal decodeOne decodeMsg decodeRecs parse fi
 def ConvOK (f : Nat) : Prop :=
   ∀ (fs : Fields) (fl : Flags) (b : Bytes) (lenB off : Nat) (vs : Vals) (R : Vals × Nat),
     tyOK (.struct fs) = true → fl.zigzag = false → lenB = off + b.length →
-    decodeStruct f (fieldsOf 1 fs) b lenB vs fl off = .ok R →
+    decodeStructU f (fieldsOf 1 fs) b lenB vs fl off = .ok R →
     ZeroNum fs b ∨ ∃ recs, parse (b.length + 1) b = some recs ∧
       ∀ F, 2 * b.length + 1 ≤ F → decodeRecs F fs recs vs = some R.1
 
@@ -36,7 +36,7 @@ theorem base_conv (f : Nat) (ih : ∀ f', f' < f → ConvOK f') (tb : Ty) (o : F
     (pre : Nat) (cur v : Val) (fl : Flags) (m' : Nat) (ht : tyOK tb = true) (hnp : isPtr tb = false)
     (hns : isSlice tb = false) (ho : optOK tb o = true) (hfl : fl.zigzag = o.zigzag)
     (hc : Carved (isStructTy tb) wv p data pre) (hw : wireNum wv = (codecFor tb o).wire.num)
-    (h : decode f (codecFor tb o) data cur fl = .ok (v, m')) :
+    (h : decodeU f (codecFor tb o) data cur fl = .ok (v, m')) :
     m' = data.length ∧ (ZeroIn tb wv ∨ ∀ F, 2 * p.length + 2 ≤ F → decodeOne F tb o wv cur = some v) := by
   by_cases hs : isStructTy tb = true
   · cases tb <;> simp only [isStructTy] at hs <;> try (exact absurd hs (by decide))
@@ -47,9 +47,9 @@ theorem base_conv (f : Nat) (ih : ∀ f', f' < f → ConvOK f') (tb : Ty) (o : F
     rcases hc with ⟨he, _⟩ | ⟨_, pl, rfl, hl, rfl, _⟩
     · simp [isStructTy] at he
     cases f with
-    | zero => simp [decode] at h
+    | zero => simp [decodeU] at h
     | succ f1 =>
-    cases cur <;> try (simp [decode] at h; done)
+    cases cur <;> try (simp [decodeU] at h; done)
     rename_i vs0
     rw [decode_struct_succ] at h
     obtain ⟨⟨vs1, n⟩, hds, heq⟩ := bind_ok _ _ _ h
@@ -72,7 +72,7 @@ theorem base_conv (f : Nat) (ih : ∀ f', f' < f → ConvOK f') (tb : Ty) (o : F
         intro F'
         obtain ⟨v0, h0⟩ := scalar_conv tb o wv data cur cur v F' f fl m' ht hs' hnp hns ho hfl hp hw h
         cases f with
-        | zero => simp [decode] at h
+        | zero => simp [decodeU] at h
         | succ f1 =>
           obtain ⟨_, hd⟩ := scalar_agree tb o wv data cur cur v0 (F' + 1) f1 fl ht hs' hnp hns ho hfl hp h0
           rw [h] at hd
@@ -107,7 +107,7 @@ theorem field_conv (f : Nat) (ih : ∀ f', f' < f → ConvOK f') (t : Ty) (o : F
     (pre : Nat) (cur v : Val) (fl : Flags) (m' : Nat) (ht : tyOK t = true) (hns : isSlice t = false)
     (ho : optOK t o = true) (hfl : fl.zigzag = o.zigzag)
     (hc : Carved (isEmb t) wv p data pre) (hw : wireNum wv = (codecFor t o).wire.num)
-    (h : decode f (codecFor t o) data cur fl = .ok (v, m')) :
+    (h : decodeU f (codecFor t o) data cur fl = .ok (v, m')) :
     m' = data.length ∧ (ZeroIn t wv ∨ ∃ v0, v = wrapPtr t v0 ∧
       ∀ F, 2 * p.length + 2 ≤ F → decodeOne F (deref t) o wv (unwrapPtr t cur) = some v0) := by
   by_cases hptr : isPtr t = true
@@ -127,7 +127,7 @@ theorem field_conv (f : Nat) (ih : ∀ f', f' < f → ConvOK f') (t : Ty) (o : F
     rw [isEmb_ptr t' ht.1] at hc
     simp only [Codec.wire] at hw
     cases f with
-    | zero => simp [decode] at h
+    | zero => simp [decodeU] at h
     | succ f1 =>
     rw [decode_ptr] at h
     obtain ⟨⟨x, n⟩, hdx, heq⟩ := bind_ok _ _ _ h
@@ -157,11 +157,11 @@ def sliceCur (cur : Val) : List Val :=
   | _ => []
 
 theorem decode_slice' (f : Nat) (ec : Codec) (num : Nat) (w : Wire) (emb : Bool) (b : Bytes) (cur : Val) (fl : Flags) :
-    decode (f + 1) (.slice ec num w emb) b cur fl
-      = (decode f ec b (zeroOfCodec ec) {}).bind fun (x : Val × Nat) =>
+    decodeU (f + 1) (.slice ec num w emb) b cur fl
+      = (decodeU f ec b (zeroOfCodec ec) {}).bind fun (x : Val × Nat) =>
           .ok (.list (Vals.ofList (sliceCur cur ++ [x.1])), x.2) := by
-  simp only [decode, sliceCur]
-  cases decode f ec b (zeroOfCodec ec) {} with
+  simp only [decodeU, sliceCur]
+  cases decodeU f ec b (zeroOfCodec ec) {} with
   | ok a => cases cur <;> simp [Res.bind, Vals.toList]
   | err e => rfl
   | panic e => rfl
@@ -171,7 +171,7 @@ theorem slice_conv (f : Nat) (ih : ∀ f', f' < f → ConvOK f') (e : Ty) (o : F
     (pre : Nat) (cur v : Val) (fl : Flags) (m' num : Nat) (ht : tyOK (.slice e) = true)
     (ho : optOK (.slice e) o = true)
     (hc : Carved (isStructTy e) wv p data pre) (hw : wireNum wv = (codecOf e).wire.num)
-    (h : decode f (.slice (codecOf e) num (codecOf e).wire (isStructTy e)) data cur fl = .ok (v, m')) :
+    (h : decodeU f (.slice (codecOf e) num (codecOf e).wire (isStructTy e)) data cur fl = .ok (v, m')) :
     m' = data.length ∧ (ZeroIn (.slice e) wv ∨ ∃ x, v = .list (Vals.ofList (sliceCur cur ++ [x])) ∧
       ∀ F, 2 * p.length + 2 ≤ F → decodeOne F e o wv (Spec.Protobuf.zeroOf e) = some x) := by
   simp only [tyOK, elemTy, Bool.and_eq_true, Bool.not_eq_true'] at ht
@@ -181,7 +181,7 @@ theorem slice_conv (f : Nat) (ih : ∀ f', f' < f → ConvOK f') (e : Ty) (o : F
   have hz : Spec.Protobuf.zeroOf e = zeroOfCodec (codecOf e) := by
     rw [← hcf, zeroOfCodec_codecFor e o ht.2, zeroOf_eq e ht.2]
   cases f with
-  | zero => simp [decode] at h
+  | zero => simp [decodeU] at h
   | succ f1 =>
   rw [decode_slice'] at h
   obtain ⟨⟨x, n⟩, hdx, heq⟩ := bind_ok _ _ _ h
@@ -221,7 +221,7 @@ theorem assemble (fs : Fields) (ptag p m : Bytes) (tag : Nat) (wv : WireVal) (vs
 theorem conv_step (f : Nat) (ih : ∀ f', f' < f → ConvOK f') : ConvOK f := by
   intro fs fl b lenB off vs R hty hfl hL h
   cases f with
-  | zero => simp [decodeStruct] at h
+  | zero => simp [decodeStructU] at h
   | succ f1 =>
   rw [decodeStruct_succ] at h
   by_cases hb : b = []
